@@ -226,6 +226,12 @@ def points(tier: str) -> List[Dict[str, Any]]:
                     if mode == "sync_close_foreign_loop" and (off // 1000) % 4:
                         continue  # the foreign thread runs an event loop of its own: a quarter of the instants
                     pts.append({"scenario": scenario, "jitter": jitter, "close_at_us": off, "mode": mode})
+    # the loop's thread is blocked for a while right after close returned, while waiters (probe intervals, a lookup) were pending
+    for scenario, lo, hi in (("busy", 2500, 3000), ("early", 100, 700), ("busy", 200, 400)):
+        for ms in range(lo, hi, 50):
+            for mode in ("async_close", "sync_close"):
+                for stall in (300, 3000):
+                    pts.append({"scenario": scenario, "jitter": 0.0, "close_at_us": ms * 1000, "mode": mode, "stall_ms": stall})
     # a close that is cancelled part-way and requested again (every loop iteration of the first close as cancellation point)
     for scenario, off in (("busy", 5_000_000), ("busy", 9_000_000), ("early", 400_000)):
         for k in range(0, 40):
@@ -293,6 +299,12 @@ def run_point(p: Dict[str, Any], verbose: bool = False) -> Tuple[Optional[Dict[s
             with w.outside(foreign_loop=p["mode"] == "sync_close_foreign_loop"):
                 zc.close()
         t_ret = w.now_ms
+        if p.get("stall_ms"):
+            # the application blocks the loop's thread for a while right after close returned (synchronous clean-up): whatever
+            # was left pending - a notification queued by the shutdown, timers of waiters - becomes due in ONE loop iteration
+            w.loop.now_us += int(p["stall_ms"] * 1000)
+            w.loop.run_once()
+            w.settle()
         closed_trace = len(w.net.trace)
         calls_at_return = len(log.calls)
         # goodbyes for what was registered when close was requested, before the sockets closed
